@@ -11,6 +11,8 @@
 //!     TypeAggregator.  The property gives: exactly ONE import on the track of a:b/c, named for the highest version that
 //!     was required (when a:b/c only comes in as the owner of a used resource: for one of the owners' versions); a:b/d@0.2.0 once when required; every aggregated name resolves
 //!     (canonical_import_name) to a present import; the same import names for every order.
+//! (1b) nested instance exports (x = {n: {f}} and x = {n: {f, g}}, both orders) and async functions (equal requirements merge
+//!     and satisfy both contributors; async vs sync is a conflict in both orders).
 //! (2) graph level: packages A (imports foo:bar/types@0.2.0 {r} and foo:bar/api using r), B (imports foo:bar/types@0.2.1
 //!     {r, s}), C (imports foo:bar/types@0.2.0 {r}), D (imports foo:bar/types@0.2.1 {r, s} and foo:bar/api using r), E (two
 //!     versions of ONE package name, the second needing more of a shared import): every ordered list of 2..3 distinct
@@ -152,6 +154,83 @@ fn main() {
         if l.len() > 1 && versions.len() > 1 { nontrivial += 1; }
         if samples.len() < 2 && l.len() == 3 && versions.len() > 1 { samples.push(format!("{} => {:?}", show(), got)); }
     }
+    let mut findings: Vec<String> = vec![];
+    // ---------------- (1b) nested instance exports and async functions (plain name `x`, separate type collections)
+    {
+        let func = |t: &mut Types, is_async: bool| t.add_func_type(FuncType { params: Default::default(), result: None, is_async });
+        // x = { n: instance { f [, g] } }
+        let nested = |t: &mut Types, with_g: bool| -> ItemKind {
+            let f = func(t, false);
+            let mut inner: IndexMap<String, ItemKind> = [("f".to_string(), ItemKind::Func(f))].into_iter().collect();
+            if with_g { let g = func(t, false); inner.insert("g".to_string(), ItemKind::Func(g)); }
+            let n = t.add_interface(Interface { id: None, uses: Default::default(), exports: inner });
+            ItemKind::Instance(t.add_interface(Interface { id: None, uses: Default::default(), exports: [("n".to_string(), ItemKind::Instance(n))].into_iter().collect() }))
+        };
+        for order in [[false, true], [true, false], [true, true], [false, false]] {
+            cases += 1;
+            let mut stores = [Types::default(), Types::default()];
+            let kinds = [nested(&mut stores[0], order[0]), nested(&mut stores[1], order[1])];
+            let mut cache = HashSet::new();
+            let mut checker = SubtypeChecker::new(&mut cache);
+            let mut agg = TypeAggregator::new();
+            for i in 0..2 { agg = agg.aggregate("x", &stores[i], kinds[i], &mut checker).unwrap_or_else(|e| { println!("C09-BOUNDED VIOLATION: nested instance requirements {order:?} (with g) do not merge: {e:#}"); std::process::exit(1) }); }
+            let (_, merged) = agg.imports().next().unwrap();
+            for i in 0..2 {
+                if let Err(e) = checker.is_subtype(merged, agg.types(), kinds[i], &stores[i]) {
+                    let msg = format!("requirements x = {{n: {{f{}}}}} then x = {{n: {{f{}}}}}: the merged type does not satisfy contributor #{i} ({e:#})", if order[0] { ", g" } else { "" }, if order[1] { ", g" } else { "" });
+                    if order[0] != order[1] { findings.push(format!("FINDING nested-instance-export-keeps-the-smaller {msg}")); } else { println!("C09-BOUNDED VIOLATION: {msg}"); std::process::exit(1); }
+                }
+            }
+            nontrivial += 1;
+        }
+        // x = { h: [async] func }, and the bare function x
+        for (a0, a1) in [(true, true), (false, false), (true, false), (false, true)] { for bare in [false, true] {
+            cases += 1;
+            let mut stores = [Types::default(), Types::default()];
+            let mk = |t: &mut Types, is_async: bool| -> ItemKind { let f = func(t, is_async); if bare { ItemKind::Func(f) } else { ItemKind::Instance(t.add_interface(Interface { id: None, uses: Default::default(), exports: [("h".to_string(), ItemKind::Func(f))].into_iter().collect() })) } };
+            let kinds = [mk(&mut stores[0], a0), mk(&mut stores[1], a1)];
+            let mut cache = HashSet::new();
+            let mut checker = SubtypeChecker::new(&mut cache);
+            let mut agg = Some(TypeAggregator::new());
+            let mut err = None;
+            for i in 0..2 { match agg.take().unwrap().aggregate("x", &stores[i], kinds[i], &mut checker) { Ok(a) => agg = Some(a), Err(e) => { err = Some(format!("{e:#}")); break; } } }
+            let what = format!("{} requirement with async = {a0} then async = {a1}", if bare { "function" } else { "instance-with-a-function" });
+            match (a0 == a1, err) {
+                (true, Some(e)) => { println!("C09-BOUNDED VIOLATION: equal requirements fail to merge ({e}): {what}"); std::process::exit(1); }
+                (false, None) => { println!("C09-BOUNDED VIOLATION: an async and a sync definition of the same function were merged: {what}"); std::process::exit(1); }
+                (true, None) => { let a = agg.unwrap(); let (_, merged) = a.imports().next().unwrap(); for i in 0..2 { if let Err(e) = checker.is_subtype(merged, a.types(), kinds[i], &stores[i]) { println!("C09-BOUNDED VIOLATION: {what}: the merged type does not satisfy contributor #{i} ({e:#})"); std::process::exit(1); } } nontrivial += 1; }
+                (false, Some(_)) => {}
+            }
+        } }
+    }
+    // ---------------- (1c) core module and component requirements (plain name `x`): the merged type must satisfy both
+    {
+        let mem = |initial: u64| CoreExtern::Memory { memory64: false, shared: false, initial, maximum: None, page_size_log2: None };
+        let module = |t: &mut Types, initial: u64| ItemKind::Module(t.add_module_type(ModuleType { imports: Default::default(), exports: [("m".to_string(), mem(initial))].into_iter().collect() }));
+        let comp = |t: &mut Types, import: &str| { let f = t.add_func_type(FuncType { params: Default::default(), result: None, is_async: false }); ItemKind::Component(t.add_world(World { id: None, uses: Default::default(), imports: [(import.to_string(), ItemKind::Func(f))].into_iter().collect(), exports: Default::default() })) };
+        for case in 0..4 {
+            cases += 1;
+            let mut stores = [Types::default(), Types::default()];
+            let (kinds, what) = match case {
+                0 => ([module(&mut stores[0], 1), module(&mut stores[1], 2)], "module exporting a memory of at least 1 page, then of at least 2 pages"),
+                1 => ([module(&mut stores[0], 2), module(&mut stores[1], 1)], "module exporting a memory of at least 2 pages, then of at least 1 page"),
+                2 => ([comp(&mut stores[0], "p"), comp(&mut stores[1], "q")], "component importing `p`, then a component importing `q`"),
+                _ => ([comp(&mut stores[0], "p"), comp(&mut stores[1], "p")], "component importing `p`, twice"),
+            };
+            let mut cache = HashSet::new();
+            let mut checker = SubtypeChecker::new(&mut cache);
+            let mut agg = Some(TypeAggregator::new());
+            let mut err = None;
+            for i in 0..2 { match agg.take().unwrap().aggregate("x", &stores[i], kinds[i], &mut checker) { Ok(a) => agg = Some(a), Err(e) => { err = Some(format!("{e:#}")); break; } } }
+            match err {
+                Some(e) => { if case == 3 { println!("C09-BOUNDED VIOLATION: equal component requirements fail to merge ({e})"); std::process::exit(1); } }   // a conflict is a legitimate answer for the others
+                None => { let a = agg.unwrap(); let (_, merged) = a.imports().next().unwrap();
+                    for i in 0..2 { let mut c2 = HashSet::new(); if let Err(e) = SubtypeChecker::new(&mut c2).is_subtype(merged, a.types(), kinds[i], &stores[i]) {
+                        if case == 3 { println!("C09-BOUNDED VIOLATION: {what}: the merged type does not satisfy contributor #{i} ({e:#})"); std::process::exit(1); }
+                        findings.push(format!("FINDING module-and-component-requirements-keep-the-supertype requirement x = {what}: merged without a conflict, but the merged type does not satisfy contributor #{i} ({e:#})")); break; } } }
+            }
+        }
+    }
     // ---------------- (2) graph level
     let types_r = |v: &str| format!("  (type $t (instance (export \"r\" (type (sub resource)))))\n  (import \"foo:bar/types@{v}\" (instance $types (type $t)))");
     let types_rs = |v: &str| format!("  (type $t (instance (export \"r\" (type (sub resource))) (export \"s\" (type (sub resource)))))\n  (import \"foo:bar/types@{v}\" (instance $types (type $t)))");
@@ -202,6 +281,11 @@ fn main() {
         } }
         if vs.len() > 1 || l.iter().filter(|k| pkgs[**k].0 == "test:e").count() > 1 { nontrivial += 1; }
         if samples.len() < 4 && vs.len() > 1 && l.len() == 3 { samples.push(format!("{} => {:?}", show(), got)); }
+    }
+    for f in &findings { println!("{f}"); }
+    if !findings.is_empty() {
+        println!("C09-USES findings {{\"bounded\": true, \"evaluations\": {cases}, \"distinct_nontrivial\": {nontrivial}, \"samples\": {:?}}}", samples);
+        std::process::exit(3);
     }
     println!("C09-USES ok {{\"bounded\": true, \"evaluations\": {cases}, \"distinct_nontrivial\": {nontrivial}, \"samples\": {:?}}}", samples);
 }
